@@ -284,6 +284,31 @@ def scn_scaler_reuse(T, case):
     C11.scn_linear(Renamed(T, "C11.linear.", "C14.scaler_reuse."), case)
 
 
+# ------------------------------------------------------------------------------------ TOO_FEW_REALIZATIONS exactly when too few realizations succeeded
+def cases_driver_and_flags(tier):
+    from contracts import C03
+
+    for cid, c in C03.cases_run(tier):
+        yield "driver/" + cid, dict(c, __which__="run")
+    for cid, c in C03.cases_flags(tier):
+        if c["what"] == "propagate":
+            yield "flags/" + cid, dict(c, __which__="flags")
+
+
+def scn_driver_and_flags(T, case):
+    """'TOO_FEW_REALIZATIONS exactly when some evaluation had too few successful realizations': the driver inspects EVERY result of an
+    evaluation (a function result and a gradient result, or a batch) on its own, and a realization counts as failed exactly when one
+    of its values is NaN - infinite values are values (C03's scenarios of _run_evaluations and of the failure flags under this
+    property's prefix)."""
+    from contracts import C03
+    from contracts.reuse import Renamed
+
+    if case["__which__"] == "run":
+        C03.scn_run(Renamed(T, "C03.", "C14.too_few."), case)
+    else:
+        C03.scn_flags(Renamed(T, "C03.", "C14.too_few."), case)
+
+
 SCENARIOS = [
     Scenario("constraint_info_raises_clause", scn_constraint_info, cases_constraint_info, {"quick": 3, "thorough": 20}),
     Scenario("native_failure_patterns", scn_native_patterns, cases_native_patterns, {"quick": 1, "thorough": 1}),
@@ -295,6 +320,7 @@ SCENARIOS = [
     Scenario("gradient_solve_with_fewer_perturbations_than_variables_bounded", scn_solve, cases_solve, {"quick": 10, "thorough": 100}),
     Scenario("plan_steps_hand_over", scn_steps, cases_steps, {"quick": 1, "thorough": 2}),
     Scenario("scaler_object_reused_for_another_configuration", scn_scaler_reuse, cases_scaler_reuse, {"quick": 5, "thorough": 30}),
+    Scenario("too_few_realizations_exactly_when_too_few_succeeded", scn_driver_and_flags, cases_driver_and_flags, {"quick": 1, "thorough": 5}),
 ]
 
 MANIFEST = {
